@@ -53,6 +53,11 @@ LEVEL_TEXT += (
     " Added in the second hunting round (DESIGN.md 9.6): "
     "CompositeBasis is run in both numbering modes (concatenated and "
     "shared, basis0 @ basis1).")
+LEVEL_TEXT += (
+    " Added in the fourth hunting round (DESIGN.md 9.6): "
+    "a composite element among the components of ElementComposite / "
+    "ElementVector is flattened or refused (gbasis takes field [0] of "
+    "each component).")
 LEVEL_NOTE = (
     "Trusted: numpy reshape/moveaxis/flatten/split/cumsum semantics. The "
     "@-composite (equal_dofnum) branch of CompositeBasis is outside the "
